@@ -187,6 +187,24 @@ def mirror_spec(spec, split_source_rs=False):
     return t, alias
 
 
+def noload_unresolved(*tables):
+    """True when some Converter / Rectifier row carries an output current that the solver's stopping rule cannot
+    resolve (|Iout| below numpy's fixed atol = 1e-8 A, or exactly 0 in one table and not in the other): these kinds
+    switch to their NO-LOAD current (iq) at io == 0, so two converged solves of electrically equivalent systems may
+    legitimately sit on either side of that switch (e.g. a MOSFET bridge with ig = 1.8 uA above a 0.9 nA load)."""
+    seen = {}
+    for rows in tables:
+        for n, r in rows.items():
+            if r.get("Type") in ("CONVERTER", "RECTIFIER"):
+                io = r[M.COLS["iout"]]
+                if M.num(io):
+                    seen.setdefault(n, []).append(abs(io))
+    for n, ios in seen.items():
+        if any(0.0 < x < M.ATOL for x in ios) or (min(ios) == 0.0 and max(ios) > 0.0 and max(ios) < 10 * M.ATOL):
+            return n
+    return None
+
+
 class TwinTol:
     """Tolerances for comparing two independently converged solves of electrically equivalent systems.
 
